@@ -100,7 +100,11 @@ func c15Run(c *mon.Case, p c15P) {
 		defer vh.SetSoftType(false)
 		n := int(p.S + p.D)
 		chain := regularChain(n, time.Second, time.Second)
-		w := newWorld(c, chain, 1, p.S, uint64(n))
+		tip := uint64(n)
+		if p.Via == "head" {
+			tip = p.S // the network has nothing new until the candidate is offered through Head()
+		}
+		w := newWorld(c, chain, 1, p.S, tip)
 		defer w.close()
 		recency := 10000 * time.Hour
 		if p.Via == "head" {
@@ -142,6 +146,7 @@ func c15Run(c *mon.Case, p c15P) {
 			cand = chain.Variant(p.Cand, p.S+p.D, 7)
 		}
 		var verr error
+		w.g.setTip(uint64(n))
 		if p.Via == "head" {
 			// what a contract-abiding Exchange.Head(WithTrustedHead) returns: the head together with its
 			// SoftFailure error, nothing for a hard failure
